@@ -23,7 +23,7 @@ RULE = ("Mode 'listing': a directory (files, sub-dirs, HTML titles, hostile name
         "Non-trivial: listing with >= 1 non-tame name or metadata-derived entry; search string with a reserved "
         "or non-UTF-8 byte; resolve of a non-tame or virtual selector.")
 ASSUMPTIONS = [
-    "remote links carry an explicit host and port (the manual requires all five fields)",
+    "remote links carry an explicit host; a missing port ('+' / omitted) means this server's port",
     "a search string starting with '+' or '$' or equal to '!' is not sent through the plain-Gopher tab field "
     "(the Gopher+ specification gives that request line another meaning)",
     "informational text does not start with '=>' / '=:' (gemtext link syntax) and names carry no TAB/CR/LF",
@@ -119,7 +119,8 @@ def _listing_spec(case):
         blocks = []
         for e in case["extra"]:
             if e["k"] == "remote":
-                blocks.append("Name=%s\nType=%s\nPath=%s\nHost=%s\nPort=%d\n" % (e["name"], e["type"], e["sel"], e["host"], e["port"]))
+                blocks.append("Name=%s\nType=%s\nPath=%s\nHost=%s\nPort=%s\n" % (
+                    e["name"], e["type"], e["sel"], e["host"], "+" if e["port"] == 1 else e["port"]))
             elif e["k"] == "url":
                 blocks.append("Name=%s\nType=h\nPath=URL:%s\nHost=+\nPort=+\n" % (e["name"], e["url"]))
             elif e["k"] == "search":
@@ -136,7 +137,7 @@ def _listing_spec(case):
             lines.append("0Entry %s\t%s" % (re.sub(r"[\t\r\n]", " ", name).strip() or "x", name))
         for e in case["extra"]:
             if e["k"] == "remote":
-                lines.append("%s%s\t%s\t%s\t%d" % (e["type"], e["name"], e["sel"], e["host"], e["port"]))
+                lines.append("%s%s\t%s\t%s\t%s" % (e["type"], e["name"], e["sel"], e["host"], "" if e["port"] == 1 else e["port"]))
             elif e["k"] == "url":
                 lines.append("h%s\tURL:%s" % (e["name"], e["url"]))
             elif e["k"] == "search":
